@@ -21,7 +21,7 @@ BASE = {
     "cmd_rename_all": None, "param_serde_rename": None, "status_serde": True, "channel_name": "on_progress", "validator_range": None, "second_struct_field": "i32",
     "notice_min": 3, "notice_level": "i32", "notice_nested": "u8", "tm_targets": ("string", "string"),
     "same_name_field_rename": False, "same_name_variant_rename": False, "no_events": False, "second_emit_site": True, "cmds_swapped": False, "legacy_file": True,
-    "ret_map_value": "u32", "ret_tuple_second": "String", "watch_rename_all": None,
+    "ret_map_value": "u32", "ret_tuple_second": "String", "watch_rename_all": None, "track_is_channel": False,
 }
 
 # edit classes: name -> function(state) (toggles, so that sequences compose); "affects": None=always, "zod"=only visible in zod mode
@@ -66,6 +66,8 @@ EDITS = [
     ("retarget-private-field", lambda s: s.update(private_field_type="String" if s["private_field_type"] == "u32" else "u32")),
     ("add-remove-pub(crate)-field", lambda s: s.update(crate_field=not s["crate_field"])),
     ("command-serde-rename_all", lambda s: s.update(cmd_rename_all=None if s["cmd_rename_all"] else "snake_case")),
+    # a command's last parameter of type T becomes a channel of T under the same name (and back)
+    ("trailing-parameter-becomes-channel-of-its-type", lambda s: s.update(track_is_channel=not s["track_is_channel"])),
     # the rename rule of a command whose only frontend arguments are channels (their keys follow the rule like any parameter's)
     ("channel-only-command-rename_all", lambda s: s.update(watch_rename_all={None: "snake_case", "snake_case": "SCREAMING_SNAKE_CASE", "SCREAMING_SNAKE_CASE": None}[s["watch_rename_all"]])),
     ("parameter-serde-rename", lambda s: s.update(param_serde_rename=None if s["param_serde_rename"] else "theId")),
@@ -142,6 +144,7 @@ def render(s):
             cmds += rg.command_src("extra_cmd", [("flag", "bool")], "Status")
         cmds += rg.command_src("watch_downloads", [("app", "AppHandle"), ("on_progress", "Channel<u32>"), ("on_done_signal", "Channel<Status>")], None,
                                attr='#[tauri::command(rename_all = "%s")]' % s["watch_rename_all"] if s["watch_rename_all"] else "#[tauri::command]")
+        cmds += rg.command_src("track_job", [("job_id", "u32"), ("progress", "Channel<Status>" if s["track_is_channel"] else "Status")], "i32")
         cmds += rg.command_src("usage_by_day", [("year", "u16")], "Result<HashMap<String, %s>, String>" % s["ret_map_value"])
         cmds += rg.command_src("first_and_note", [], "Result<(u32, %s), String>" % s["ret_tuple_second"])
     ev = "pub fn notify(app: AppHandle, payload: %s) {\n    %sapp.emit(\"%s\", payload).unwrap();\n}\n\n" % (s["event_payload"], "// " if s["no_events"] else "", s["event_name"])
